@@ -59,7 +59,7 @@ def count_actions(tests, acc):
             prev_locks = locks
 
 
-def replay(ctx, binary, tests, args, name, nproc):
+def replay_tests(ctx, binary, tests, args, name, nproc):
     res = ctx.run_harness(binary, "replay", tests, args=args, nproc=nproc, name=name, timeout=2700)
     vflib.report_mismatches(ctx, binary, "replay", res, args=args, adapter="prune", what_prefix="prune (%s): " % name)
     return res
@@ -84,10 +84,28 @@ def judge(ctx, res, tests, cfg, name, args):
     return len(lines), verdicts
 
 
+def run_auto_only(ctx, binary):
+    """VERIF_C19_ONLY=auto: only the automatic-pruning part of the thorough tier (for the seeded self-test; the full check gives the same verdicts)."""
+    atests = script_tests(ctx, "E1_auto.cfg", "directed_auto")
+    aacc = collections.Counter(); count_actions(atests, aacc)
+    aargs = ["fast=1", "target=576716800"]
+    resa = replay_tests(ctx, binary, atests, aargs, "auto", min(JOBS or 2, 3))
+    n_obs, verdicts = judge(ctx, resa, atests, "Obs_auto.cfg", "auto", aargs)
+    ctx.traces = len(atests); ctx.evaluations = int(resa["summary"].get("steps", 0)) + n_obs
+    ctx.nontrivial = set(vflib.digest(t["steps"]) for t in atests)
+    ctx.extra["model_steps_per_kind"] = dict(aacc)
+    ctx.extra["deviations_from_model"] = len(resa["deviations"])
+    ctx.extra["deviation_samples"] = [d.get("why", "")[:300] for d in resa["deviations"][:5]]
+    ctx.extra["clauses_violated_on_observations"] = dict(collections.Counter(inv for _, inv in verdicts))
+    return ctx.finish(level="model_checking", exhaustive=False, rule="automatic-pruning directed behaviours only (VERIF_C19_ONLY=auto)")
+
+
 def run(ctx):
     binary = ctx.build_adapter("prune")
     thorough = ctx.tier != "quick"
     acc = collections.Counter()
+    if os.environ.get("VERIF_C19_ONLY") == "auto":
+        return run_auto_only(ctx, binary)
 
     # 1. the clauses on the scaled-down model, exhaustively
     ctx.tlc("Prune", "MCPrune", "MC_small_thorough.cfg" if thorough else "MC_small_quick.cfg", env=TLC_ENV, workers=JOBS, timeout=2400)
@@ -103,7 +121,7 @@ def run(ctx):
         if not acc[k]:
             raise vflib.InfraError("vacuity: the replayed behaviours never exercise " + k)
     args = ["fast=1", "target=manual"]
-    res = replay(ctx, binary, tests, args, "manual", JOBS)
+    res = replay_tests(ctx, binary, tests, args, "manual", JOBS)
     n_obs, verdicts = judge(ctx, res, tests, "Obs_manual.cfg", "manual", args)
     deviations = list(res["deviations"])
     summary = collections.Counter(res["summary"])
@@ -119,7 +137,7 @@ def run(ctx):
             raise vflib.InfraError("vacuity: no automatic prune event in the automatic-pruning behaviours (%s)" % dict(aacc))
         acc.update(aacc)
         aargs = ["fast=1", "target=576716800"]
-        resa = replay(ctx, binary, atests, aargs, "auto", min(JOBS or 2, 2))
+        resa = replay_tests(ctx, binary, atests, aargs, "auto", min(JOBS or 2, 2))
         n2, v2 = judge(ctx, resa, atests, "Obs_auto.cfg", "auto", aargs)
         n_obs += n2; verdicts += v2; deviations += resa["deviations"]; summary.update(resa["summary"]); all_tests += len(atests)
 
@@ -143,3 +161,25 @@ def run(ctx):
     return ctx.finish(level="model_checking", exhaustive=False,
                       rule="directed behaviours at every boundary of the rules plus TLC-simulated behaviours (seeded); non-trivial = behaviours in which at least "
                            "one file is pruned")
+
+
+def replay(ctx, path):
+    """./check C19 --replay <file>: re-run the stored behaviour on the current tree and judge its prune events again."""
+    o = json.load(open(path))
+    binary = ctx.build_adapter("prune")
+    args = o.get("args") or ["fast=1", "target=manual"]
+    if o.get("case") is None:
+        print("replay file has no behaviour"); return 2
+    res = ctx.run_harness(binary, "replay", [json.dumps(o["case"])], args=args, nproc=1, name="replay")
+    bad = res["mismatches"] + res["aborts"]
+    for m in bad:
+        print("REPLAY %s:" % m.get("kind"), json.dumps(m)[:1500])
+    obs = [t for t in res["traces"] if "obs" in t]
+    cfg = "Obs_manual.cfg" if "target=manual" in args else "Obs_auto.cfg"
+    verdicts = vflib.judge(ctx, "Prune", "MCPruneObs", cfg, [t["obs"] for t in obs], name="observed_replay")
+    for idx, inv in verdicts:
+        t = obs[idx]
+        print("REPLAY clause %s (%s) violated after %s (step %s): tip=%s locks=%s pruned=%s" % (
+            inv, CLAUSES.get(inv, inv), json.dumps(t.get("action")), t.get("step"), t["obs"]["tip"], t["obs"]["locks"], t["obs"]["pruned"][:20]))
+    print("REPLAY result: %s" % ("still fails" if (bad or verdicts) else "passes"))
+    return 1 if (bad or verdicts) else 0
